@@ -3,6 +3,8 @@
 
 mod allocprobe;
 mod cardsref;
+#[cfg(feature = "conc")]
+mod conc;
 mod driver;
 mod json;
 mod rng;
@@ -119,6 +121,12 @@ fn main() {
         "check" => cmd_check(&args),
         "replay" => cmd_replay(&args),
         "lane" => cmd_lane(&args),
+        #[cfg(feature = "conc")]
+        "conc" => cmd_conc(&args),
+        #[cfg(feature = "conc")]
+        "conc-lane" => cmd_conc_lane(&args),
+        #[cfg(feature = "conc")]
+        "conc-replay" => cmd_conc_replay(&args),
         "context-replay" => cmd_context_replay(&args),
         "selftest" => {
             let seed = seed_from_env();
@@ -358,14 +366,6 @@ fn cmd_check(args: &Args) -> i32 {
         eprintln!("HARNESS-ERROR: cannot create {}: {}", scratch.display(), e);
         return 2;
     }
-    // replay files of earlier runs of this property would only mislead
-    if let Ok(rd) = std::fs::read_dir(root.join("replays")) {
-        for e in rd.flatten() {
-            if e.file_name().to_string_lossy().starts_with(&format!("{}-", prop)) {
-                let _ = std::fs::remove_file(e.path());
-            }
-        }
-    }
     let seed = seed_from_env();
     let runs = tier_runs(&tier);
     sim::set_depth(if tier == "thorough" { 1 } else { 0 });
@@ -487,6 +487,26 @@ fn cmd_check(args: &Args) -> i32 {
         determinism = J::obj().with("runs_compared_position_by_position", J::u(n)).with("processes", J::str("simfast x1 worker, simfast x5, simchk x16, simchk x3")).with("identical", J::Bool(all_same));
     }
 
+    // concurrent phase (only present when check.sh found atomics in the tree and built the shadow)
+    let conc_report: J = match args.get("conc-report") {
+        Some(pth) => match read_json(Path::new(pth)) {
+            Ok(j) => {
+                for l in j.get("lines").and_then(|x| x.as_arr()).unwrap_or(&[]) {
+                    println!("{}", l.as_str().unwrap_or(""));
+                }
+                for n in j.get("notes").and_then(|x| x.as_arr()).unwrap_or(&[]) {
+                    println!("NOTE: concurrent phase: {}", n.as_str().unwrap_or(""));
+                }
+                if j.get("violations").and_then(|x| x.as_u64()).unwrap_or(0) > 0 {
+                    exit = exit.max(1);
+                }
+                j
+            }
+            Err(e) => J::obj().with("applicable", J::Bool(true)).with("error", J::Str(e)),
+        },
+        None => J::obj().with("applicable", J::Bool(false)).with("reason", J::str("the non-test source of the tree contains no `sync::atomic`: there is no shared state whose accesses a thread scheduler could interleave (DESIGN 1); on a tree that has some, check.sh rebuilds the crate with core::sync::atomic replaced by shuttle::sync::atomic and explores interleavings of two or three simulated callers (DESIGN 10.13)")),
+    };
+
     if !harness_errors.is_empty() {
         exit = 2;
     }
@@ -524,6 +544,7 @@ fn cmd_check(args: &Args) -> i32 {
     if let Some(s) = &secondary {
         violations_total = violations_total.max(g(s, "new_violations"));
     }
+    violations_total += conc_report.get("violations").and_then(|x| x.as_u64()).unwrap_or(0);
     let mut all_viol: Vec<J> = p.get("violations").and_then(|x| x.as_arr()).unwrap_or(&[]).to_vec();
     if let Some(s) = &secondary {
         for v in s.get("violations").and_then(|x| x.as_arr()).unwrap_or(&[]) {
@@ -563,6 +584,7 @@ fn cmd_check(args: &Args) -> i32 {
         .with("profiles", J::Arr(profiles))
         .with("profile_digests_match", digests_match)
         .with("determinism_sample", determinism)
+        .with("concurrent_phase", conc_report.clone())
         .with("world", desc)
         .with("violations_detail", J::Arr(all_viol))
         .with("known_findings_matched", J::u(g(p, "known_findings_matched")))
@@ -612,4 +634,189 @@ fn cmd_check(args: &Args) -> i32 {
         evpath.display()
     );
     exit
+}
+
+// ---------------------------------------------------------------------------
+// Concurrent phase (shadow build only; DESIGN 10.13)
+
+#[cfg(feature = "conc")]
+fn cmd_conc_lane(args: &Args) -> i32 {
+    let (prop, out, dir) = match (args.get("prop"), args.get("out"), args.get("dir")) {
+        (Some(p), Some(o), Some(d)) => (p.to_string(), PathBuf::from(o), PathBuf::from(d)),
+        _ => return usage(),
+    };
+    let (seed, lane, iters) = (args.u64("seed").unwrap_or(DEFAULT_SEED), args.u64("lane").unwrap_or(0), args.u64("iterations").unwrap_or(1000) as usize);
+    let j = match prop.as_str() {
+        "C15" => conc::run_lane::<world_c15::C15>(seed, lane, iters, &dir),
+        "C19" => conc::run_lane::<world_c19::C19>(seed, lane, iters, &dir),
+        _ => return usage(),
+    };
+    if std::fs::write(&out, j.pretty()).is_err() {
+        return 2;
+    }
+    0
+}
+
+#[cfg(feature = "conc")]
+fn cmd_conc_replay(args: &Args) -> i32 {
+    let (prop, file) = match (args.get("prop"), args.get("schedule")) {
+        (Some(p), Some(f)) => (p.to_string(), PathBuf::from(f)),
+        _ => return usage(),
+    };
+    let (code, v) = match prop.as_str() {
+        "C15" => conc::replay_schedule::<world_c15::C15>(&file),
+        "C19" => conc::replay_schedule::<world_c19::C19>(&file),
+        _ => return usage(),
+    };
+    match v {
+        Some(v) => {
+            println!("REPLAY-RESULT class={} step={} digest=0x0", v.get("class").and_then(|x| x.as_str()).unwrap_or("?"), v.get("step").and_then(|x| x.as_u64()).unwrap_or(0));
+            if !args.flag("machine") {
+                println!("{}", v.pretty());
+            }
+        }
+        None => println!("REPLAY-RESULT no-violation digest=0x0"),
+    }
+    code
+}
+
+/// Parent of the concurrent phase: runs the lanes, confirms the first failure in a fresh process,
+/// writes a replay file and a report for `check --conc-report`.
+#[cfg(feature = "conc")]
+fn cmd_conc(args: &Args) -> i32 {
+    let (prop, out) = match (args.get("prop"), args.get("out")) {
+        (Some(p @ ("C15" | "C19")), Some(o)) => (p.to_string(), PathBuf::from(o)),
+        _ => return usage(),
+    };
+    let root = PathBuf::from(args.get("root").unwrap_or("/verif"));
+    let seed = args.u64("seed").unwrap_or_else(seed_from_env);
+    let iters = args.u64("iterations").unwrap_or(3000);
+    let lanes = args.u64("lanes").unwrap_or(16);
+    let workers = workers_default();
+    let t0 = Instant::now();
+    let me = std::env::current_exe().unwrap_or_else(|_| PathBuf::from("ckc-sim"));
+    let work = root.join("sim/target/conc/run").join(format!("{}-{}", prop, std::process::id()));
+    let _ = std::fs::remove_dir_all(&work);
+    let _ = std::fs::create_dir_all(&work);
+    let mut running: Vec<std::process::Child> = Vec::new();
+    for lane in 0..lanes {
+        if running.len() >= workers {
+            let _ = running.remove(0).wait();
+        }
+        let mut cmd = std::process::Command::new(&me);
+        cmd.arg("conc-lane").arg("--prop").arg(&prop).arg("--seed").arg(seed.to_string()).arg("--lane").arg(lane.to_string()).arg("--iterations").arg(iters.to_string()).arg("--dir").arg(work.join(format!("sched-{}", lane))).arg("--out").arg(work.join(format!("lane-{}.json", lane)));
+        cmd.stdout(std::process::Stdio::null()).stderr(std::process::Stdio::null());
+        if let Ok(c) = cmd.spawn() {
+            running.push(c);
+        }
+    }
+    for mut c in running {
+        let _ = c.wait();
+    }
+    let mut done = 0u64;
+    let mut lanes_json: Vec<J> = Vec::new();
+    let mut first_fail: Option<J> = None;
+    let mut notes: Vec<String> = Vec::new();
+    for lane in 0..lanes {
+        match read_json(&work.join(format!("lane-{}.json", lane))) {
+            Ok(j) => {
+                done += j.get("iterations_done").and_then(|x| x.as_u64()).unwrap_or(0);
+                if j.get("failed").and_then(|x| x.as_bool()) == Some(true) && first_fail.is_none() {
+                    first_fail = Some(j.clone());
+                }
+                lanes_json.push(j);
+            }
+            Err(e) => notes.push(format!("lane {} produced no report ({})", lane, e)),
+        }
+    }
+    let mut lines: Vec<String> = Vec::new();
+    let mut violations = 0u64;
+    let mut vdetail = J::Null;
+    if let Some(f) = first_fail {
+        let class = f.get("violation").and_then(|v| v.get("class")).and_then(|x| x.as_str()).unwrap_or("?").to_string();
+        let sched = f.get("schedule_file").and_then(|x| x.as_str()).map(PathBuf::from);
+        let lane = f.get("lane").and_then(|x| x.as_u64()).unwrap_or(0);
+        let replays = root.join("replays");
+        let _ = std::fs::create_dir_all(&replays);
+        let mut reported = false;
+        if let Some(sf) = sched {
+            let keep = replays.join(format!("{}-conc-seed{}-lane{}.schedule", prop, seed, lane));
+            let _ = std::fs::copy(&sf, &keep);
+            // a fresh process must fail the same way from the schedule alone
+            let ok = std::process::Command::new(&me).arg("conc-replay").arg("--prop").arg(&prop).arg("--schedule").arg(&keep).arg("--machine").output().map(|o| o.status.code() == Some(1) && String::from_utf8_lossy(&o.stdout).contains(&format!("class={} ", class))).unwrap_or(false);
+            if ok {
+                let file = replays.join(format!("{}-conc-seed{}-lane{}.json", prop, seed, lane));
+                let j = J::obj()
+                    .with("format", J::str("ckc-sim replay v1"))
+                    .with("mode", J::str("shuttle-schedule"))
+                    .with("property_id", J::str(&prop))
+                    .with("verif_seed", J::u(seed))
+                    .with("schedule_file", J::Str(keep.display().to_string()))
+                    .with("scheduler", f.get("scheduler").cloned().unwrap_or(J::Null))
+                    .with("what", J::str("two or three simulated caller threads, each running its own short history against the shadow build of the crate in which core::sync::atomic is shuttle::sync::atomic; the schedule file is shuttle's own replayable encoding of which thread ran at every atomic operation"))
+                    .with("expected", J::obj().with("class", J::str(&class)))
+                    .with("violation", f.get("violation").cloned().unwrap_or(J::Null));
+                if std::fs::write(&file, j.pretty()).is_ok() {
+                    lines.push(format!("VIOLATION property={} replay={}", prop, file.display()));
+                    lines.push(format!("  class={} origin=concurrent phase (shuttle, lane {}) {}", class, lane, f.get("violation").and_then(|v| v.get("detail")).and_then(|x| x.as_str()).unwrap_or("")));
+                    violations = 1;
+                    vdetail = j;
+                    reported = true;
+                }
+            }
+        }
+        if !reported {
+            // the schedule alone is not enough (state carried over from earlier iterations): the whole lane is the replay
+            let again = work.join("again.json");
+            let ok = std::process::Command::new(&me).arg("conc-lane").arg("--prop").arg(&prop).arg("--seed").arg(seed.to_string()).arg("--lane").arg(lane.to_string()).arg("--iterations").arg(iters.to_string()).arg("--dir").arg(work.join("again-sched")).arg("--out").arg(&again).status().is_ok()
+                && read_json(&again).ok().map(|j| j.get("failed").and_then(|x| x.as_bool()) == Some(true) && j.get("violation").and_then(|v| v.get("class")).and_then(|x| x.as_str()) == Some(class.as_str())).unwrap_or(false);
+            if ok {
+                let file = replays.join(format!("{}-conc-seed{}-lane{}.json", prop, seed, lane));
+                let j = J::obj()
+                    .with("format", J::str("ckc-sim replay v1"))
+                    .with("mode", J::str("shuttle-lane"))
+                    .with("property_id", J::str(&prop))
+                    .with("verif_seed", J::u(seed))
+                    .with("lane", J::u(lane))
+                    .with("iterations", J::u(iters))
+                    .with("what", J::str("the failing iteration depends on state left by earlier iterations of its lane; the replay re-runs the lane's schedules from its seed in a fresh process"))
+                    .with("expected", J::obj().with("class", J::str(&class)))
+                    .with("violation", f.get("violation").cloned().unwrap_or(J::Null));
+                if std::fs::write(&file, j.pretty()).is_ok() {
+                    lines.push(format!("VIOLATION property={} replay={}", prop, file.display()));
+                    lines.push(format!("  class={} origin=concurrent phase (shuttle, lane {}, whole-lane replay)", class, lane));
+                    violations = 1;
+                    vdetail = j;
+                }
+            } else {
+                notes.push(format!("a concurrent-phase failure of class {} did not reproduce in a fresh process; not reported", class));
+            }
+        }
+    }
+    let _ = std::fs::remove_dir_all(&work);
+    let report = J::obj()
+        .with("applicable", J::Bool(true))
+        .with("property_id", J::str(&prop))
+        .with("seed", J::u(seed))
+        .with("lanes", J::u(lanes))
+        .with("iterations_per_lane", J::u(iters))
+        .with("schedules_explored", J::u(done))
+        .with("schedulers", J::str("random (3 lanes of 4), PCT depth 3 (1 lane of 4)"))
+        .with("callers_per_schedule", J::str("2 or 3 simulated threads, each with its own objects, model and invariants"))
+        .with("violations", J::u(violations))
+        .with("violation", vdetail)
+        .with("lines", J::Arr(lines.iter().map(|s| J::str(s)).collect()))
+        .with("notes", J::Arr(notes.iter().map(|s| J::str(s)).collect()))
+        .with("wall_s", J::Float(t0.elapsed().as_secs_f64()));
+    if std::fs::write(&out, report.pretty()).is_err() {
+        return 2;
+    }
+    for l in &lines {
+        println!("{}", l);
+    }
+    if violations > 0 {
+        1
+    } else {
+        0
+    }
 }
